@@ -5,6 +5,7 @@ import (
 	"hash/fnv"
 	"sort"
 	"strings"
+	"sync"
 	"time"
 
 	"github.com/enbility/spine-go/api"
@@ -35,14 +36,16 @@ func init() {
 	rig.Register(&rig.Check{
 		ID:    "C06",
 		Floor: 130,
-		Rule: "case = 3 peers with identical numbering, each with a seeded history of 4-10 announcements (first a reply; then reply | partial notify with 0-3 added and 0-2 removed entries in shuffled order | full notify) over the entity domain " +
-			"{[0],[1],[2],[1,1],[1,2]} with 1-3 features per entity from 6 feature types, interleaved with subscribe/bind calls of the peers and SubscribeToRemote/BindToRemote of local client features. " +
+		Rule: "case = 3 peers with identical numbering, each with a seeded history of 4-10 announcements (first a reply - for one peer in five a partial notification; then reply | partial notify with 0-3 added and 0-2 removed entries in shuffled order, one in four naming one address twice (added+removed, folded in list order) | full notify) over the entity domain " +
+			"{[0],[1],[2],[1,1],[1,2]} with 1-3 features per entity from 6 feature types (operations with their partial sub-flags; one feature in four announces a function from outside the stack's table for its type), interleaved with subscribe/bind calls of the peers and SubscribeToRemote/BindToRemote of local client features. " +
+			"One case in three ends with a full notification that restates known entities with other descriptions/features/operations (the reference is the tree of the message). Entity events are also judged at publication time by a core-level handler (published object = resolved object, entity complete; removed address does not resolve). " +
 			"A case is non-trivial if at least one entity appeared through a notification, one disappeared, one multi-entity notification was sent and at least one removal cascaded over a registry entry or bookkeeping flag. " +
 			"distinct = distinct sequences of message shapes (kind, #created, #refreshed, #removed-known, #removed-unknown, nested) over the whole case.",
 		Assumptions: []string{
 			"events are observed at the core level (synchronous with HandleSpineMesssage), so the trace of a message is complete when the call returns",
-			"only device-consistent announcements; [0] with NodeManagement is never announced away (D28 belongs to C05); an entity is named at most once per notification; entity types are a function of the address, so a refresh never changes the type",
-			"generated full notifications restate known entities identically, so the reference does not depend on whether the implementation refreshes them",
+			"only device-consistent announcements; [0] with NodeManagement is never announced away (D28 belongs to C05); an address is named at most once as added per notification (the feature list of a message is flat); entity types are a function of the address, so a refresh never changes the type",
+			"a full notification announces the complete tree: applying it yields the entities of the message with the content of the message. Inside a history full notifications restate known entities identically; the redrawn one is the last message of its case, so a deviation there does not take the reference away from the steps before it",
+			"which device part the API shows for an entity (and its features) that no announcement has listed yet is not fixed by the statement: replies list [0] until it has been listed once, and no full notification is sent before that",
 			"the registry content after a subscribe/bind call is adopted as observed (its exactness is C08/C09); C06 judges only what a discovery message does to it",
 		},
 		Parts: []rig.Part{{
@@ -59,7 +62,7 @@ func init() {
 type c06Op struct {
 	fn     model.FunctionType
 	r, w   bool
-	rp, wp bool // partial sub-flags: sent, never compared
+	rp, wp bool // partial sub-flags (they exist on the wire only below read / write)
 }
 
 type c06F struct {
@@ -113,9 +116,16 @@ func c06FeatLine(dev, ek string, id uint, typ model.FeatureTypeType, role model.
 	return fmt.Sprintf("F %s|%s/%d type=%s role=%s desc=%s ops={%s}", dev, ek, id, typ, role, desc, strings.Join(ops, ","))
 }
 
+// c06OpStr (read/write only) is what C07 compares; C06 compares the partial sub-flags as well (c06OpStrP).
 func c06OpStr(fn model.FunctionType, r, w bool) string {
 	return fmt.Sprintf("%s:r=%v,w=%v", fn, r, w)
 }
+
+func c06OpStrP(fn model.FunctionType, r, w, rp, wp bool) string {
+	return fmt.Sprintf("%s:r=%v,w=%v,rp=%v,wp=%v", fn, r, w, rp, wp)
+}
+
+func (o c06Op) String() string { return c06OpStrP(o.fn, o.r, o.w, o.r && o.rp, o.w && o.wp) }
 
 func (t *c06Tree) lines() []string {
 	var ls []string
@@ -129,7 +139,7 @@ func (t *c06Tree) lines() []string {
 		for _, f := range e.feats {
 			var ops []string
 			for _, o := range f.ops {
-				ops = append(ops, c06OpStr(o.fn, o.r, o.w))
+				ops = append(ops, o.String())
 			}
 			ls = append(ls, c06FeatLine(dev, k, f.id, f.typ, f.role, c06P(f.desc), ops))
 		}
@@ -196,7 +206,7 @@ func c06Observe(rd api.DeviceRemoteInterface) (ls []string, cross []string) {
 			}
 			var ops []string
 			for fn, o := range f.Operations() {
-				ops = append(ops, c06OpStr(fn, o.Read(), o.Write()))
+				ops = append(ops, c06OpStrP(fn, o.Read(), o.Write(), o.ReadPartial(), o.WritePartial()))
 			}
 			id := uint(*fa.Feature)
 			ls = append(ls, c06FeatLine(fdev, c06KeyM(fa.Entity), id, f.Type(), f.Role(), c06P(fd), ops))
@@ -264,6 +274,118 @@ func c06Diff(want, got []string) string {
 	return strings.Join(out, "\n")
 }
 
+// c06RefEntity: the lines of one entity of the reference (E line and F lines, sorted).
+func c06RefEntity(k string, e *c06E) []string {
+	t := &c06Tree{ents: map[string]*c06E{k: e}}
+	var ls []string
+	for _, l := range t.lines() {
+		if !strings.HasPrefix(l, "D ") {
+			ls = append(ls, l)
+		}
+	}
+	return ls
+}
+
+// c06ObsEntity: the same lines read from an entity object.
+func c06ObsEntity(e api.EntityRemoteInterface) []string {
+	var ls []string
+	a := e.Address()
+	if a == nil {
+		return []string{"entity without address"}
+	}
+	dev := "<nil>"
+	if a.Device != nil {
+		dev = string(*a.Device)
+	}
+	var d *string
+	if e.Description() != nil {
+		d = util.Ptr(string(*e.Description()))
+	}
+	ls = append(ls, fmt.Sprintf("E %s|%s type=%s desc=%s", dev, c06KeyM(a.Entity), e.EntityType(), c06P(d)))
+	for _, f := range e.Features() {
+		fa := f.Address()
+		if fa == nil || fa.Feature == nil {
+			ls = append(ls, "feature without address")
+			continue
+		}
+		fdev := "<nil>"
+		if fa.Device != nil {
+			fdev = string(*fa.Device)
+		}
+		var fd *string
+		if f.Description() != nil {
+			fd = util.Ptr(string(*f.Description()))
+		}
+		var ops []string
+		for fn, o := range f.Operations() {
+			ops = append(ops, c06OpStrP(fn, o.Read(), o.Write(), o.ReadPartial(), o.WritePartial()))
+		}
+		ls = append(ls, c06FeatLine(fdev, c06KeyM(fa.Entity), uint(*fa.Feature), f.Type(), f.Role(), c06P(fd), ops))
+	}
+	sort.Strings(ls)
+	return ls
+}
+
+// c06Pub is subscribed at the core level: it runs synchronously inside Events.Publish, i.e. at the moment an
+// entity event is published, and looks at the tree the API shows at that moment.
+//   - entity added:   the published object is the one the device resolves for that address, and it already
+//     shows the description and features that were announced for it
+//   - entity removed: the address does not resolve any more
+type c06Pub struct {
+	mu       sync.Mutex
+	ski      string
+	rd       api.DeviceRemoteInterface
+	expect   map[string][]string // entity -> lines it must show when its add event is published
+	problems [][2]string         // deviation, detail
+	judged   int
+}
+
+func (h *c06Pub) arm(ski string, rd api.DeviceRemoteInterface, expect map[string][]string) {
+	h.mu.Lock()
+	defer h.mu.Unlock()
+	h.ski, h.rd, h.expect, h.problems = ski, rd, expect, nil
+}
+
+func (h *c06Pub) disarm() [][2]string {
+	h.mu.Lock()
+	defer h.mu.Unlock()
+	h.rd = nil
+	return h.problems
+}
+
+func (h *c06Pub) HandleEvent(p api.EventPayload) {
+	h.mu.Lock()
+	defer h.mu.Unlock()
+	if h.rd == nil || p.EventType != api.EventTypeEntityChange || p.Ski != h.ski {
+		return
+	}
+	if rig.IsNil(p.Entity) || p.Entity.Address() == nil {
+		h.problems = append(h.problems, [2]string{"event-without-entity", "an entity event carries no entity"})
+		return
+	}
+	h.judged++
+	k := c06KeyM(p.Entity.Address().Entity)
+	cur := h.rd.Entity(p.Entity.Address().Entity)
+	if p.Device != h.rd {
+		h.problems = append(h.problems, [2]string{"event-device-is-not-the-remote-device", "the event for " + k + " carries another device object"})
+	}
+	switch p.ChangeType {
+	case api.ElementChangeAdd:
+		if cur != p.Entity {
+			h.problems = append(h.problems, [2]string{"add-event-entity-is-not-the-tree-entity", fmt.Sprintf("when the add event for %s is published, Entity(%s) does not return the published object (resolves: %v)", k, k, !rig.IsNil(cur))})
+		}
+		if want, ok := h.expect[k]; ok {
+			if got := c06ObsEntity(p.Entity); strings.Join(got, "\n") != strings.Join(want, "\n") {
+				h.problems = append(h.problems, [2]string{"add-event-before-entity-is-complete", fmt.Sprintf("when the add event for %s is published the entity shows\n    %s\n  announced:\n    %s", k, strings.Join(got, "\n    "), strings.Join(want, "\n    "))})
+			}
+		}
+	case api.ElementChangeRemove:
+		if !rig.IsNil(cur) {
+			h.problems = append(h.problems, [2]string{"remove-event-while-entity-still-resolves", fmt.Sprintf("when the remove event for %s is published, Entity(%s) still resolves", k, k)})
+		}
+	}
+}
+
 // ---- messages
 
 type c06EntMsg struct {
@@ -286,7 +408,7 @@ func (m c06EntMsg) String() string {
 	for _, f := range m.feats {
 		var ops []string
 		for _, o := range f.ops {
-			ops = append(ops, c06OpStr(o.fn, o.r, o.w))
+			ops = append(ops, o.String())
 		}
 		fs = append(fs, fmt.Sprintf("%d:%s/%s/%s{%s}", f.id, f.typ, f.role, c06P(f.desc), strings.Join(ops, ",")))
 	}
@@ -393,6 +515,26 @@ func c06RandFeats(c *rig.Ctx) []c06F {
 				f.ops = append(f.ops, c06Op{fn: fns[i].Fn, r: r.Intn(3) > 0, w: r.Intn(2) == 0, rp: r.Intn(3) == 0, wp: r.Intn(3) == 0})
 			}
 		}
+		// one feature in four also announces a function the stack's table does not hold for this feature type:
+		// a function of another feature type or a name the data model does not know at all
+		if r.Intn(4) == 0 {
+			fn := model.FunctionType(fmt.Sprintf("vendorSpecific%dListData", r.Intn(3)))
+			if r.Intn(2) == 0 {
+				if other := c06FnsOf(c06Types[r.Intn(len(c06Types))]); len(other) > 0 {
+					fn = other[r.Intn(len(other))].Fn
+				}
+			}
+			own := false
+			for _, x := range fns {
+				if x.Fn == fn {
+					own = true
+				}
+			}
+			if !own {
+				f.ops = append(f.ops, c06Op{fn: fn, r: r.Intn(3) > 0, w: r.Intn(2) == 0, rp: r.Intn(3) == 0, wp: r.Intn(3) == 0})
+				c.Count("functions_announced_from_outside_the_feature_types_table", 1)
+			}
+		}
 		fs = append(fs, f)
 	}
 	return fs
@@ -411,14 +553,15 @@ func c06NMFeats(c *rig.Ctx) []c06F {
 // ---- the case
 
 type c06Peer struct {
-	p      *rig.Peer
-	idx    int
-	tree   *c06Tree
-	left   int  // announcements left
-	begun  bool // initial reply sent
-	nMsgs  int
-	lastDT *model.DeviceTypeType
-	lastFS *model.NetworkManagementFeatureSetType
+	p           *rig.Peer
+	idx         int
+	tree        *c06Tree
+	left        int  // announcements left
+	begun       bool // has announced something
+	notifyFirst bool // the first announcement is a notification, not the reply
+	nMsgs       int
+	lastDT      *model.DeviceTypeType
+	lastFS      *model.NetworkManagementFeatureSetType
 }
 
 type c06Reg struct {
@@ -458,12 +601,15 @@ func c06Case(c *rig.Ctx) {
 	for i := 0; i < 3; i++ {
 		p := w.AddPeer(i)
 		p.Ctr = uint64(i+1) * 100000
-		peers = append(peers, &c06Peer{p: p, idx: i, left: 4 + r.Intn(7),
+		peers = append(peers, &c06Peer{p: p, idx: i, left: 4 + r.Intn(7), notifyFirst: r.Intn(5) == 0,
 			tree: &c06Tree{ents: map[string]*c06E{"[0]": {addr: []uint{0}, typ: model.EntityTypeTypeDeviceInformation,
 				feats: []c06F{{id: 0, typ: model.FeatureTypeTypeNodeManagement, role: model.RoleTypeSpecial}}}}}})
 		p.Tap.Take()
 	}
 	w.Core.Take()
+	pub := &c06Pub{}
+	_ = spine.VerifSubscribeCore(pub)
+	defer func() { _ = spine.VerifUnsubscribeCore(pub) }()
 
 	var trace []string
 	var shapes []string
@@ -603,6 +749,7 @@ func c06Case(c *rig.Ctx) {
 
 	var appearedByNotify, disappeared, multi, cascaded int
 	steps := 0
+	wantRedraw, redrawDone := r.Intn(3) == 0, false
 	for {
 		var cand []*c06Peer
 		for _, q := range peers {
@@ -610,8 +757,22 @@ func c06Case(c *rig.Ctx) {
 				cand = append(cand, q)
 			}
 		}
+		redraw := false
 		if len(cand) == 0 {
-			break
+			// one case in three ends with a full notification that restates known entities with OTHER content
+			if redrawDone || !wantRedraw {
+				break
+			}
+			redrawDone = true
+			for _, qq := range peers {
+				if qq.tree.ents["[0]"].dev != "" {
+					cand = append(cand, qq)
+				}
+			}
+			if len(cand) == 0 {
+				break
+			}
+			redraw = true
 		}
 		for k := r.Intn(4); k > 0; k-- {
 			registryOp()
@@ -625,7 +786,9 @@ func c06Case(c *rig.Ctx) {
 
 		// ---- generate one announcement and apply it to the reference
 		var appeared, gone []string
-		var created, refreshed, remKnown, remUnknown int
+		var created, refreshed, remKnown, remUnknown, redrawn int
+		var unrefreshed []string             // the tree if a full notification left known entities as they were
+		expectAtAdd := map[string][]string{} // entity -> what it must show when its add event is published
 		nested := false
 		var ents []c06EntMsg
 		kind := ""
@@ -657,6 +820,8 @@ func c06Case(c *rig.Ctx) {
 			if len(m.addr) > 1 {
 				nested = true
 			}
+			cp := *e
+			expectAtAdd[k] = c06RefEntity(k, &cp)
 		}
 		applyRemoved := func(a []uint) {
 			k := c06Key(a)
@@ -673,9 +838,46 @@ func c06Case(c *rig.Ctx) {
 		}
 		x := r.Intn(10)
 		switch {
-		case !q.begun || x == 0: // reply
+		case redraw:
+			kind = "full"
+			var keys []string
+			for k := range t.ents {
+				keys = append(keys, k)
+			}
+			sort.Strings(keys)
+			var known []string
+			for _, k := range keys {
+				if k != "[0]" {
+					known = append(known, k)
+				}
+			}
+			must := -1
+			if len(known) > 0 {
+				must = r.Intn(len(known))
+			}
+			var again []c06EntMsg
+			for _, k := range keys {
+				e := t.ents[k]
+				m := c06EntMsg{addr: e.addr, desc: e.desc, feats: append([]c06F(nil), e.feats...), omitDev: r.Intn(2) == 0}
+				if k != "[0]" && ((must >= 0 && known[must] == k) || r.Intn(2) == 0) {
+					m = listed(e.addr, "")
+					again = append(again, m)
+					redrawn++
+				}
+				ents = append(ents, m)
+			}
+			r.Shuffle(len(ents), func(i, j int) { ents[i], ents[j] = ents[j], ents[i] })
+			unrefreshed = t.lines()
+			for _, m := range again {
+				applyListed(m)
+			}
+			c.Count("full_notifications_redrawing_known_entities", 1)
+			c.Count("known_entities_redrawn", int64(redrawn))
+		case (!q.begun && !q.notifyFirst) || x == 0: // reply
 			kind = "reply"
-			if !q.begun || r.Intn(10) > 0 {
+			// a reply lists [0] until [0] has been listed once (which device part the API shows for an entity
+			// and its features that no announcement has listed yet is not fixed by the statement), later mostly
+			if t.ents["[0]"].dev == "" || r.Intn(10) > 0 {
 				ents = append(ents, listed([]uint{0}, ""))
 			}
 			for _, a := range c06Dom {
@@ -700,8 +902,7 @@ func c06Case(c *rig.Ctx) {
 			if q.lastFS != nil {
 				t.fset = q.lastFS
 			}
-			q.begun = true
-		case x <= 6: // partial notify
+		case x <= 6 || t.ents["[0]"].dev == "": // partial notify (no full notification before [0] has been listed once, see the reply)
 			kind = "partial"
 			perm := r.Perm(len(c06Dom))
 			nAdd, nRem := r.Intn(4), r.Intn(3)
@@ -716,6 +917,17 @@ func c06Case(c *rig.Ctx) {
 			}
 			for _, i := range perm[nAdd : nAdd+nRem] {
 				ents = append(ents, c06EntMsg{addr: c06Dom[i], state: "removed", omitDev: r.Intn(2) == 0})
+			}
+			// one notification in four names one address twice: once as added, once as removed, in either order
+			// (the entries are folded in list order). Two "added" entries for one address are not generated: the
+			// feature list of a message is flat, so their features could not be told apart.
+			if r.Intn(4) == 0 {
+				if m := ents[r.Intn(len(ents))]; m.state == "added" {
+					ents = append(ents, c06EntMsg{addr: m.addr, state: "removed", omitDev: r.Intn(2) == 0})
+				} else {
+					ents = append(ents, listed(m.addr, "added"))
+				}
+				c.Count("notifications_naming_one_address_twice", 1)
 			}
 			if r.Intn(10) == 0 { // [0] re-announced as added, complete with its NodeManagement
 				ents = append(ents, listed([]uint{0}, "added"))
@@ -761,6 +973,10 @@ func c06Case(c *rig.Ctx) {
 				}
 			}
 		}
+		if !q.begun && kind != "reply" {
+			c.Count("peers_whose_first_announcement_is_a_notification", 1)
+		}
+		q.begun = true
 		var ms []string
 		for _, m := range ents {
 			ms = append(ms, m.String())
@@ -769,6 +985,9 @@ func c06Case(c *rig.Ctx) {
 		shape := fmt.Sprintf("%s+%d~%d-%d?%d", kind[:1], created, refreshed, remKnown, remUnknown)
 		if nested {
 			shape += "n"
+		}
+		if redrawn > 0 {
+			shape += fmt.Sprintf("R%d", redrawn)
 		}
 		shapes = append(shapes, shape)
 		c.Count("messages:"+kind, 1)
@@ -824,6 +1043,7 @@ func c06Case(c *rig.Ctx) {
 		}
 		w.Core.Take()
 		d := c06Build(c, p, q.lastDT, q.lastFS, ents)
+		pub.arm(p.Ski, p.RD, expectAtAdd)
 		switch kind {
 		case "reply":
 			p.Send(model.CmdClassifierTypeReply, p.NM(), rig.LNM, false, util.Ptr(model.MsgCounterType(1)), model.CmdType{NodeManagementDetailedDiscoveryData: d})
@@ -832,6 +1052,7 @@ func c06Case(c *rig.Ctx) {
 		default:
 			p.NotifyDiscovery(false, d)
 		}
+		atPublication := pub.disarm()
 		c.Events(1)
 		if n := p.PanicCount(); n > 0 {
 			fail("panic/"+kind, "panic while handling the message: %s", p.Panics[n-1])
@@ -848,6 +1069,13 @@ func c06Case(c *rig.Ctx) {
 				if qq != q {
 					who = "other-peer"
 				}
+				if qq == q && redrawn > 0 {
+					if strings.Join(got, "\n") == strings.Join(unrefreshed, "\n") {
+						fail("tree/full/known-entity-not-refreshed", "peer%d sent a full notification that restates %d known entities with other descriptions/features/operations; the tree still shows them as they were before:\n%s", q.idx, redrawn, c06Diff(want, got))
+						return
+					}
+					kind = "full-redrawn"
+				}
 				fail(fmt.Sprintf("tree/%s/%s/%s", kind, who, c06DiffClass(want, got)), "after %s of peer%d the tree of peer%d differs from the reference:\n%s", kind, q.idx, qq.idx, c06Diff(want, got))
 				return // the reference is lost for the rest of the case
 			}
@@ -857,6 +1085,9 @@ func c06Case(c *rig.Ctx) {
 		}
 
 		// ---- (2) events
+		for _, pr := range atPublication {
+			fail("events/"+kind+"/"+pr[0], "%s of peer%d: %s", kind, q.idx, pr[1])
+		}
 		evs := w.Core.Take()
 		var gotAdd, gotRem []string
 		devAdd, otherEv := 0, 0
@@ -961,6 +1192,7 @@ func c06Case(c *rig.Ctx) {
 	c.Shape(fmt.Sprintf("%x", h.Sum64()))
 	c.NonTrivial(appearedByNotify > 0 && disappeared > 0 && multi > 0 && cascaded > 0)
 	c.Count("announcements", int64(steps))
+	c.Count("entity_events_judged_at_publication_time", int64(pub.judged))
 	if len(trace) > 14 {
 		trace = trace[:14]
 	}
